@@ -11,14 +11,28 @@ C09 — Joint fitting is order-invariant and fits each interval to exactly its o
 Clause → theorem
   interval k is fitted to exactly the observations whose conditioning value is in interval k,
   in input order                                                   split_data_exact
-  row order does not matter: edges (functions of min/max) equal,   listMax_perm, listMin_perm,
-  interval contents permutations of each other, estimates equal    split_perm_invariant, estimates_perm_invariant
-  for any permutation-invariant estimator
+  row order does not matter, Width / Number slicers (all options):  widthSlice_perm_invariant, numberSlice_perm_invariant
+  for permuted rows the same error or the same intervals            (composed from listMax_perm, listMin_perm,
+  (references, boundaries, which survive min_n_points) and each     width_as_templates, number_as_templates,
+  interval holds the same observations as a multiset …              template_split_perm; the float models are instances:
+                                                                    widthSliceF_eq_G, numberSliceF_eq_G)
+  … hence the same per-interval estimates for any permutation-      sameSplit_estimates
+  invariant estimator, and the same callable references (np.median  (building blocks for a FIXED predicate:
+  of the members' conditioning values)                              split_perm_invariant, estimates_perm_invariant)
+  ASSUMED in that composition (stated as the shape of widthSliceG / numberSliceG, proved to be the
+  executable model by …_eq_G): the interval starts are computed from the data max (Width) / min and
+  max (Number) and the options only. Float `<` on NaN-free data is taken to be a linear order.
   PointsPerInterval with ties across a chunk boundary: invariance
   is impossible (two valid sort orders, different intervals)       ppi_ties_not_invariant
   dependence functions get (reference, estimate) pairs             dep_fit_inputs
   each dimension gets its own (method, weights) or the default     fitPlan_per_dim, fitPlan_length,
                                                                    fitPlan_default_when_absent, missing_method_reported
+  NOT here: `DependenceFunction(weights=…, constraints=…)` — how a dependence function is fitted to
+  its pairs is C14; C09 proves which pairs it receives. Refusal of a wrong-length list is part of
+  the model (`fillFitDesc`), compared with the code at run time. PointsPerInterval WITHOUT ties
+  across a chunk boundary: order invariance observed at run time only (no theorem).
+  An unconditional dimension i is fitted to column i: run-time oracle over recording doubles and
+  shipped families (no model function; there is nothing to compute).
   PARTIAL (runtime): float summation noise of the real estimators under permutation (MLE /
   least squares are permutation-invariant only up to rounding) — compared with rtol 1e-6.
 -/
@@ -27,6 +41,7 @@ import Mathlib.Order.Basic
 import Mathlib.Order.Defs.LinearOrder
 import Mathlib.Data.List.Basic
 import Mathlib.Data.List.Perm.Basic
+import Mathlib.Data.List.Forall2
 import Mathlib.Tactic.Linarith
 
 namespace VirVerif.C09
@@ -342,9 +357,219 @@ theorem missing_method_reported (pre : List FitDescIn) (w : Option (Option Strin
         simp only [List.cons_append, fillFitDescAux, ih', Except.map, List.length_cons]
         congr 2; omega
 
+/-! ### composed order invariance of the Width / Number slicers (edges ← min/max ← multiset of rows) -/
+
+/-- what is reported about an interval besides its members: reference (`none` = a user callable
+applied to the members' conditioning values) and the two boundaries -/
+def ivDescr (iv : Interval α) : Option α × α × α := (iv.ref, iv.lo, iv.hi)
+
+/-- two slicing results describe **the same intervals with the same members**: same error or the
+same list of (reference, boundaries), and interval by interval the selected values of the
+columns `col`, `col'` are permutations of each other -/
+def SameSplit (r r' : Except SliceErr (List (Interval α))) (col col' : List α) : Prop :=
+  r.map (·.map ivDescr) = r'.map (·.map ivDescr) ∧
+  ∀ ivs ivs', r = .ok ivs → r' = .ok ivs' →
+    List.Forall₂ List.Perm (splitData ivs col) (splitData ivs' col')
+
+/-- an interval as a function of the data: its membership predicate applied position by position -/
+def ivOfTemplate (data : List α) (t : (α → Bool) × Option α × α × α) : Interval α :=
+  { mask := data.map t.1, ref := t.2.1, lo := t.2.2.1, hi := t.2.2.2 }
+
+theorem maskCount_map (rows : List ρ) (p : ρ → Bool) : maskCount (rows.map p) = rows.countP p := by
+  induction rows with
+  | nil => rfl
+  | cons r rs ih =>
+    simp only [maskCount, List.map_cons, List.countP_cons] at ih ⊢
+    rw [ih]; simp
+
+/-- **slicing by data-independent predicates is order invariant.** If the intervals' predicates,
+references and boundaries (`T`) do not depend on the rows, then for permuted rows: the same
+intervals survive `min_n_points`, `min_n_intervals` raises the same error or none, and each
+surviving interval holds the same observations (as a multiset) of any column. -/
+theorem template_split_perm (T : List ((α → Bool) × Option α × α × α)) (minPts minIv : Nat)
+    (rows rows' : List ρ) (h : rows.Perm rows') (cond dist : ρ → α) :
+    SameSplit
+      (finishSlice minIv (dropSmall minPts (T.map (ivOfTemplate (rows.map cond)))))
+      (finishSlice minIv (dropSmall minPts (T.map (ivOfTemplate (rows'.map cond)))))
+      (rows.map dist) (rows'.map dist) := by
+  have hdrop : ∀ rs : List ρ, dropSmall minPts (T.map (ivOfTemplate (rs.map cond))) =
+      (T.filter fun t => decide (minPts ≤ rs.countP (fun r => t.1 (cond r)))).map
+        (ivOfTemplate (rs.map cond)) := by
+    intro rs
+    unfold dropSmall
+    rw [List.filter_map]
+    congr 1
+    apply List.filter_congr
+    intro t _
+    simp only [Function.comp, ivOfTemplate, List.map_map]
+    rw [maskCount_map]; rfl
+  have hkeep : (T.filter fun t => decide (minPts ≤ rows.countP (fun r => t.1 (cond r)))) =
+      (T.filter fun t => decide (minPts ≤ rows'.countP (fun r => t.1 (cond r)))) := by
+    apply List.filter_congr
+    intro t _
+    rw [h.countP_eq]
+  rw [hdrop rows, hdrop rows', ← hkeep]
+  generalize (T.filter fun t => decide (minPts ≤ rows.countP (fun r => t.1 (cond r)))) = K
+  unfold SameSplit finishSlice
+  simp only [List.length_map]
+  by_cases hlen : K.length < minIv
+  · simp [hlen]
+  · simp only [hlen, if_false]
+    refine ⟨?_, ?_⟩
+    · simp [Except.map, ivDescr, ivOfTemplate]
+    · intro ivs ivs' h1 h2
+      cases h1; cases h2
+      simp only [splitData, List.map_map]
+      rw [List.forall₂_map_left_iff, List.forall₂_map_right_iff, List.forall₂_same]
+      intro t _
+      simp only [Function.comp, ivOfTemplate]
+      rw [List.map_map, List.map_map]
+      rw [show (rows.map (t.1 ∘ cond)) = rows.map (fun r => t.1 (cond r)) from rfl,
+        show (rows'.map (t.1 ∘ cond)) = rows'.map (fun r => t.1 (cond r)) from rfl,
+        maskSelect_map, maskSelect_map]
+      exact (h.filter _).map _
+
+
+section slicers
+variable [LinearOrder α]
+
+omit [LinearOrder α] in
+theorem zip3_map_left {A B C D : Type} (f : A → B) (l : List A) (r : List C) (p : List D) (g : B × C × D → β) :
+    ((l.map f).zip (r.zip p)).map g = (l.zip (r.zip p)).map (fun x => g (f x.1, x.2)) := by
+  rw [List.zip_map_left, List.map_map]
+  rfl
+
+/-- the Width slicer's intervals before dropping are given by predicates, references and
+boundaries that depend on the starts (and the options) only -/
+theorem width_as_templates [Add α] [Sub α] (ro : Bool) (ref : RefKind) (w hw : α) (starts : List α) :
+    ∃ T : List ((α → Bool) × Option α × α × α), ∀ data : List α,
+      widthIntervalsOfStarts ro ref w hw starts data = T.map (ivOfTemplate data) := by
+  refine ⟨?T, fun data => ?_⟩
+  rotate_left
+  unfold widthIntervalsOfStarts edgeMasks
+  simp only []
+  rw [zip3_map_left]
+  rfl
+
+theorem number_as_templates [Add α] (im : Bool) (ref : RefKind) (w hw upper : α) (starts : List α) :
+    ∃ T : List ((α → Bool) × Option α × α × α), ∀ data : List α,
+      numberIntervalsOfStarts im ref w hw upper starts data = T.map (ivOfTemplate data) := by
+  refine ⟨?T, fun data => ?_⟩
+  rotate_left
+  unfold numberIntervalsOfStarts edgeMasks
+  simp only []
+  rw [zip3_map_left]
+  rfl
+
+omit [LinearOrder α] in
+theorem sameSplit_error (e : SliceErr) (col col' : List α) :
+    SameSplit (.error e : Except SliceErr (List (Interval α))) (.error e) col col' :=
+  ⟨rfl, fun _ _ h => by cases h⟩
+
+/-- **WidthOfIntervalSlicer: permuting the rows gives the same intervals with the same members.**
+The starts are a function of the data maximum (or of `value_range`), the maximum does not depend
+on the row order (`listMax_perm`), the predicates / references / boundaries are functions of the
+starts (`width_as_templates`), and slicing by fixed predicates is order invariant
+(`template_split_perm`). -/
+theorem widthSlice_perm_invariant [Add α] [Sub α] (startsOf : α → List α) (ro : Bool) (ref : RefKind)
+    (w hw : α) (vmax : Option α) (minPts minIv : Nat)
+    (rows rows' : List ρ) (h : rows.Perm rows') (cond dist : ρ → α) :
+    SameSplit (widthSliceG startsOf ro ref w hw vmax minPts minIv (rows.map cond))
+      (widthSliceG startsOf ro ref w hw vmax minPts minIv (rows'.map cond))
+      (rows.map dist) (rows'.map dist) := by
+  have key : ∀ mx, SameSplit
+      (finishSlice minIv (dropSmall minPts (widthIntervalsOfStarts ro ref w hw (startsOf mx) (rows.map cond))))
+      (finishSlice minIv (dropSmall minPts (widthIntervalsOfStarts ro ref w hw (startsOf mx) (rows'.map cond))))
+      (rows.map dist) (rows'.map dist) := by
+    intro mx
+    obtain ⟨T, hT⟩ := width_as_templates ro ref w hw (startsOf mx)
+    simp only [hT]
+    exact template_split_perm T minPts minIv rows rows' h cond dist
+  unfold widthSliceG
+  rw [← listMax_perm _ _ (h.map cond)]
+  cases vmax with
+  | some m => exact key m
+  | none =>
+    rcases hmx : listMax (List.map cond rows) with _ | mx
+    · exact sameSplit_error _ _ _
+    · exact key mx
+
+/-- **NumberOfIntervalsSlicer: permuting the rows gives the same intervals with the same members**
+(starts and width are a function of the data minimum and maximum, or of `value_range`). -/
+theorem numberSlice_perm_invariant [Add α] (startsOf : α → α → List α × α) (half : α → α) (k : Nat)
+    (im : Bool) (ref : RefKind) (range : Option (α × α)) (minPts minIv : Nat)
+    (rows rows' : List ρ) (h : rows.Perm rows') (cond dist : ρ → α) :
+    SameSplit (numberSliceG startsOf half k im ref range minPts minIv (rows.map cond))
+      (numberSliceG startsOf half k im ref range minPts minIv (rows'.map cond))
+      (rows.map dist) (rows'.map dist) := by
+  have key : ∀ a b, SameSplit
+      (finishSlice (min minIv k) (dropSmall minPts (numberIntervalsOfStarts im ref (startsOf a b).2
+        (half (startsOf a b).2) b (startsOf a b).1 (rows.map cond))))
+      (finishSlice (min minIv k) (dropSmall minPts (numberIntervalsOfStarts im ref (startsOf a b).2
+        (half (startsOf a b).2) b (startsOf a b).1 (rows'.map cond))))
+      (rows.map dist) (rows'.map dist) := by
+    intro a b
+    obtain ⟨T, hT⟩ := number_as_templates im ref (startsOf a b).2 (half (startsOf a b).2) b (startsOf a b).1
+    simp only [hT]
+    exact template_split_perm T minPts _ rows rows' h cond dist
+  unfold numberSliceG
+  rw [← listMax_perm _ _ (h.map cond), ← listMin_perm _ _ (h.map cond)]
+  cases range with
+  | some r => obtain ⟨a, b⟩ := r; exact key a b
+  | none =>
+    rcases hmn : listMin (List.map cond rows) with _ | mn
+    · exact sameSplit_error _ _ _
+    · rcases hmx : listMax (List.map cond rows) with _ | mx
+      · exact sameSplit_error _ _ _
+      · exact key mn mx
+
+end slicers
+
+/-- … hence every permutation-invariant function of an interval's members gives the same value
+for permuted rows: the **per-interval estimates** (`est` = stand-alone fit of the template,
+`col` = the fitted dimension) and a **callable reference** such as `np.median` (`est` = the
+callable, `col` = the conditioning dimension itself). -/
+theorem sameSplit_estimates (r r' : Except SliceErr (List (Interval α))) (col col' : List α)
+    (hs : SameSplit r r' col col') (est : List α → β) (hest : ∀ l l', l.Perm l' → est l = est l')
+    (ivs ivs' : List (Interval α)) (h1 : r = .ok ivs) (h2 : r' = .ok ivs') :
+    (splitData ivs col).map est = (splitData ivs' col').map est := by
+  have := hs.2 ivs ivs' h1 h2
+  generalize splitData ivs col = A at this ⊢
+  generalize splitData ivs' col' = B at this ⊢
+  induction this with
+  | nil => rfl
+  | cons hp _ ih => simp [hest _ _ hp, ih]
+
+/-! the executable float models are instances of `widthSliceG` / `numberSliceG` -/
+
+theorem widthSliceF_eq_G (w : Float) (ro : Bool) (ref : RefKind) (vmin vmax : Option Float)
+    (mp mi : Nat) (data : List Float) :
+    widthSliceF w ro ref vmin vmax mp mi data =
+      widthSliceG (fun mx => arange (vmin.getD 0.0) (mx + w) w) ro ref w (0.5 * w) vmax mp mi data := by
+  unfold widthSliceF widthSliceG
+  cases vmax with
+  | some m => rfl
+  | none => cases listMax data <;> rfl
+
+theorem numberSliceF_eq_G (k : Nat) (im : Bool) (ref : RefKind) (range : Option (Float × Float))
+    (mp mi : Nat) (data : List Float) :
+    numberSliceF k im ref range mp mi data =
+      numberSliceG (fun a b => linspaceNoEnd a b k) (fun w => 0.5 * w) k im ref range mp mi data := by
+  unfold numberSliceF numberSliceG
+  cases range with
+  | some r => rfl
+  | none => cases listMin data <;> cases listMax data <;> rfl
+
 /-! ### non-vacuity -/
 example : fillFitDesc 3 (some [.none, .dict (some "wlsq") (some (some "quadratic")), .dict (some "mle") none])
     = .ok [defaultFitDesc, ⟨"wlsq", some "quadratic"⟩, ⟨"mle", none⟩] := by decide
 example : maskSelect [true, false, true] [(1 : Int), 2, 3] = [1, 3] := by decide
+-- widthSlice_perm_invariant on concrete rows (conditioning value, fitted value) and a permutation of them
+example :
+    (widthSliceG (fun _ : Int => [0, 2, 4]) true .center 2 1 none 1 1 ([(1, 10), (3, 30), (5, 50), (4, 40)].map Prod.fst)).toOption.map
+        (fun ivs => splitData ivs ([((1 : Int), (10 : Int)), (3, 30), (5, 50), (4, 40)].map Prod.snd)) = some [[10], [30], [50, 40]] ∧
+    (widthSliceG (fun _ : Int => [0, 2, 4]) true .center 2 1 none 1 1 ([(4, 40), (5, 50), (1, 10), (3, 30)].map Prod.fst)).toOption.map
+        (fun ivs => splitData ivs ([((4 : Int), (40 : Int)), (5, 50), (1, 10), (3, 30)].map Prod.snd)) = some [[10], [30], [40, 50]] := by
+  decide
 
 end VirVerif.C09
